@@ -60,6 +60,32 @@ def judge(line, level, width, indentation, result, marker):
     return None
 
 
+def judge_emitted_text(text, marker, comment, width=80):
+    """Whole-module view (what the generator finally emits, after it has put the indentation back): no physical
+    line that holds more than one token is wider than the width.  Returns a list of (mech, text)."""
+    out = []
+    in_doc = False
+    for no, ln in enumerate(text.split("\n"), 1):
+        st = ln.strip()
+        if marker == "\\":
+            # Python: skip comments and docstring bodies (free text, never passed through the wrapper)
+            if st.count('"""') % 2 == 1:
+                in_doc = not in_doc
+                continue
+            if in_doc or st.startswith("#") or '"""' in st:
+                continue
+        if not st or st.startswith(comment) or len(ln) <= width:
+            continue
+        body = st[:-1] if st.endswith(marker) else st
+        try:
+            ntok = len(lex(body))
+        except ValueError:
+            ntok = 2
+        if ntok > 1:
+            out.append(("emitted-line-too-wide", f"emitted line {no} is {len(ln)} wide and holds {ntok} tokens: {ln!r}"))
+    return out
+
+
 class WrapMonitor:
     def __init__(self, rec):
         self.rec = rec
